@@ -241,6 +241,43 @@ def main():
             print(f"VIOLATION property={prop} replay={p} no-failing-input-found")
             violations += 1
 
+    # ---- 4d. C19: Visualize against Dot.v and the registry
+    viz_cov = None
+    if prop == "C19" and all(f in built for f in ("Dot", "RunViz")):
+        import vizcheck
+        vcases, vtraces, vM, vV, vdist = vizcheck.check(tier, seed, load_corpus("C19-viz"))
+        viz_cov = dict(vdist, disagreements=len(set(m[0] for m in vM)), checker_failures=len(vV))
+        seen_codes = set()
+        for (ci, oi, code) in vV:
+            if code in seen_codes:
+                continue
+            seen_codes.add(code)
+
+            def vpred(cand, code=code):
+                cs, ts, m2, v2 = vizcheck.run_viz([cand])
+                return any(x[2] == code for x in v2)
+            small = vcases[ci]
+            try:
+                small = shrink(spec, vcases[ci], vpred)
+            except Exception as e:
+                common.log("shrink failed:", e)
+            cs, ts = common.run_impl([small])
+            p = write_replay(prop, f"viz-{code}-{case_hash(small)}",
+                             {"property": prop, "failing_code": code,
+                              "meaning": {1901: "the DOT text is not well formed (an HTML-like label contains raw <, > or &, or a line the DOT grammar subset does not allow)",
+                                          1902: "the graph is not the picture of the accepted registrations"}.get(code, ""),
+                              "case": cs[0], "implementation_trace": ts[0]})
+            print(f"VIOLATION property={prop} replay={p}")
+            violations += 1
+        if vM and not vV:
+            ci, oi, code = vM[0]
+            p = write_replay(prop, f"viz-corr-{case_hash(vcases[ci])}",
+                             {"property": prop, "obligation": "corr_C19: Dot.v (create_graph / update_graph on the model state) prints the same structure as Visualize",
+                              "which": {1: "plain graph", 2: "graph marked with the Invoke's error"}.get(code),
+                              "disagreeing_case": vcases[ci], "operation": oi, "implementation_trace": vtraces[ci]})
+            print(f"VIOLATION property={prop} replay={p} no-failing-input-found")
+            violations += 1
+
     # ---- 5. verdicts
     def is_known(code):
         for k in known:
@@ -303,6 +340,11 @@ def main():
                model_impl_disagreements=len(set(m[0] for m in M)),
                checker_failures=len(V), known_finding_hits=sum(known_hits.values()),
                input_distribution=dist)
+    if viz_cov:
+        cov["visualize"] = viz_cov
+        cov["evaluations"] += viz_cov["viz_cases"]
+        cov["distinct_nontrivial"] += viz_cov["viz_cases"]
+        cov["traces_validated_against_impl"] += viz_cov["viz_cases"] - viz_cov["disagreements"]
     if raw_cov:
         cov["grammar_stream"] = raw_cov
         cov["evaluations"] += raw_cov["raw_cases"]
